@@ -1,4 +1,5 @@
 """E2: generator dump (harness/src/bin/gendump.rs against coq/Model/{Ir,Gen}.v through the extracted driver)."""
+import difflib
 import json
 import os
 import re
@@ -170,15 +171,20 @@ def run_e2(tier, seed):
             res["oracle"].append({"property": "C19", "history": h, "config": cfg,
                                   "what": "two processes generated different text (hash %s vs %s)" % (a["meta"], impl2.get(label, {}).get("meta"))})
         if a["items"] != b["items"]:
-            for i in range(max(len(a["items"]), len(b["items"]))):
-                x = a["items"][i] if i < len(a["items"]) else "<none>"
-                y = b["items"][i] if i < len(b["items"]) else "<none>"
-                if x != y:
-                    props = sorted(set(props_of_line(x) + props_of_line(y)))
-                    if sum(1 for d in res["diffs"] if d["props"] == props) < 10:
-                        res["diffs"].append({"props": props, "history": h, "config": cfg, "where": "item #%d" % i,
-                                             "implementation": x[:600], "model": y[:600]})
-                    break
+            # every item that differs (aligned by longest common subsequences) names the properties it concerns;
+            # the first one is quoted
+            props, first = set(), None
+            for tag, i1, i2, j1, j2 in difflib.SequenceMatcher(None, a["items"], b["items"], autojunk=False).get_opcodes():
+                if tag == "equal":
+                    continue
+                for x in a["items"][i1:i2] + b["items"][j1:j2]:
+                    props.update(props_of_line(x))
+                if first is None:
+                    first = (i1, a["items"][i1] if i1 < i2 else "<none>", b["items"][j1] if j1 < j2 else "<none>")
+            props = sorted(props)
+            if sum(1 for d in res["diffs"] if d["props"] == props) < 10:
+                res["diffs"].append({"props": props, "history": h, "config": cfg, "where": "item #%d" % first[0],
+                                     "implementation": first[1][:600], "model": first[2][:600]})
     res["counts"] = {"modules": nmods, "histories": len(hs), "items_compared": nitems}
     res["distinct"] = ndistinct
     res["stats"] = stats
